@@ -31,7 +31,9 @@ REQUIRED_REACH = ["images.Images.add", "images.identify_image", "images.Images.d
                   "images.Image.serialize"]
 REQUIRED_MONITORS = ["add-outcome", "state-after-call", "invariant-no-colliding-pair", "written-file-reloads",
                      "document-collision-rejected", "identify-image-three-ways"]
-SITUATIONS = ["constructed", "1.0", "1.1", "1.2"]
+# "format 1.1 or later" is a comparison of (major, minor) pairs: 2.0 and 1.10 are later than 1.1
+SITUATIONS = ["constructed", "1.0", "1.1", "1.2", "2.0", "1.10", "10.0"]
+DOC_VERSIONS = ("1.0", "1.1", "1.2", "2.0", "1.10")
 CLASS_FLOORS = {"refused-add": 20, "accepted-add": 50, "collision-same-cell": 5, "collision-other-cell": 5,
                 "equal-checksums-duplicate-accepted": 5, "doc-1.0-collision": 5, "doc-1.1-collision": 5, "doc-1.2-collision": 5,
                 "doc-1.1-clean": 5, "doc-1.2-clean": 5, "situation-constructed": 10, "situation-1.0": 10, "situation-1.1": 10,
@@ -56,6 +58,8 @@ def gen_pool(rng):
     base = F.gen_image_attrs(rng)
     base["unified"] = False
     base["additional_variants"] = []
+    if rng.random() < 0.3:
+        base["arch"] = rng.choice(["src", "nosrc"]) if rng.random() < 0.8 else "noarch"     # a source image (filed under binary arches)
     pool = []
 
     def variant(src, tag, **changes):
@@ -85,6 +89,10 @@ def gen_pool(rng):
         other["subvariant"] += "Q"
     variant(other, "other")
     variant(other, "other-same-identity-different-checksums", checksums=other_checksums())
+    # a rival of the base image that also carries the base image's PATH (a second listing of 'the same file' that
+    # disagrees on the checksums)
+    r = variant(base, "same-identity-different-checksums-same-path", checksums=other_checksums())
+    r["path"] = pool[0]["attrs"]["path"]
     return pool
 
 
@@ -349,14 +357,17 @@ def check_load_then_add(ctx, pm, Dc, extra_ops):
         im.loads(json.dumps(doc))
     except Exception:
         return False
-    # map loaded images back to pool entries by path
+    # map loaded images back to pool entries by (path, checksums): two listings may share a path
     model = Model(pool, True)
-    by_path = dict((p["attrs"]["path"], i) for i, p in enumerate(pool))
+
+    def ident(path, checksums):
+        return (path, tuple(sorted(checksums.items())))
+    by_path = dict((ident(p["attrs"]["path"], p["attrs"]["checksums"]), i) for i, p in enumerate(pool))
     objs = {}
     for v, arches in im.images.items():
         for a, cell in arches.items():
             for o in cell:
-                j = by_path.get(o.path)
+                j = by_path.get(ident(o.path, o.checksums))
                 if j is None:
                     return False
                 model.cells.setdefault((v, a), set()).add(j)
@@ -367,7 +378,7 @@ def check_load_then_add(ctx, pm, Dc, extra_ops):
         if idx not in objs:
             objs[idx] = F.make_image(pm, im, pool[idx]["attrs"])
         verdict, hit = model.add(variant, arch, idx)
-        before = dict((k, set(x.path for x in c)) for k, c in ((k2, im.images[k2[0]][k2[1]]) for k2 in
+        before = dict((k, set(ident(x.path, x.checksums) for x in c)) for k, c in ((k2, im.images[k2[0]][k2[1]]) for k2 in
                                                                 [(v, a) for v in im.images for a in im.images[v]]))
         try:
             im.add(variant, arch, objs[idx])
@@ -376,7 +387,7 @@ def check_load_then_add(ctx, pm, Dc, extra_ops):
             got = "refuse"
         except Exception as e:
             got = "refuse-other:%s" % type(e).__name__
-        after = dict((k, set(x.path for x in c)) for k, c in ((k2, im.images[k2[0]][k2[1]]) for k2 in
+        after = dict((k, set(ident(x.path, x.checksums) for x in c)) for k, c in ((k2, im.images[k2[0]][k2[1]]) for k2 in
                                                                [(v, a) for v in im.images for a in im.images[v]]))
         case = dict(Dc, extra_ops=extra_ops[:step + 1])
         if not loaded_collisions:
@@ -458,14 +469,14 @@ def run_shard(ctx):
             if 0 in idxs and 1 not in idxs and i % 4 == 0:
                 idxs.append(1)
         else:
-            pair = rng.choice([(0, 2), (9, 11), (12, 13)])
+            pair = rng.choice([(0, 2), (9, 11), (12, 13), (0, 14), (0, 14)])
             idxs = list(set(idxs) | set(pair))
         placement = []
         used = {}
         for j in idxs:
             cell = (rng.choice(variants), rng.choice(arches))
             placement.append([cell[0], cell[1], j])
-        for version in ("1.0", "1.1", "1.2"):
+        for version in DOC_VERSIONS:
             Dc = {"pool": pool, "placement": placement, "version": version}
             if i % 2 == 0:
                 extra = [[rng.choice(variants), rng.choice(arches), rng.randrange(len(pool))] for _ in range(rng.randint(2, 8))]
